@@ -1058,6 +1058,8 @@ def diag_class(diag):
     m = re.search(r"\[-W(?:error[=,])?-?W?([a-z0-9+=-]+)\]", diag)
     if m and m.group(1) not in ("error",):
         return "-W" + m.group(1)
+    if "RecursionError" in diag:  # where the interpreter's limit is met ("... in __instancecheck__", "while pickling an object") varies from run to run
+        return "RecursionError: maximum recursion depth exceeded"
     msg = re.sub(r"^.*?\b(?:fatal error|error|warning)\b:?\s*", "", diag)
     if re.match(r"^[A-Za-z]+(Error|Warning|Exception)?: ", diag) and "error:" not in diag:
         msg = diag  # python: "ModuleNotFoundError: No module named ..."
